@@ -91,6 +91,8 @@ pub const POOL: &[QueryShape] = &[
     QueryShape { text: "\"=\" @eq_sign", caps: &[c("eq_sign", "", &["="])], root_kinds: &["="], total: false, exec_safe: true },
     QueryShape { text: "left: (identifier) @lhs_id", caps: &[c("lhs_id", "", &["identifier"])], root_kinds: &["identifier"], total: false, exec_safe: true },
     QueryShape { text: "(module (expression_statement) @stmt_a (expression_statement) @stmt_b)", caps: &[c("stmt_a", "", &["expression_statement"]), c("stmt_b", "", &["expression_statement"])], root_kinds: &["module"], total: false, exec_safe: true },
+    // a predicate string with a run of blanks
+    QueryShape { text: "((string) @spaced (#match? @spaced \"  \"))", caps: &[c("spaced", "", &["string"])], root_kinds: &["string"], total: false, exec_safe: true },
 ];
 
 pub fn quant_of(s: &str) -> crate::gen::ast::Quant {
